@@ -580,7 +580,7 @@ WITNESSES = [
     ("c06_array_size_refuted", "arraysize", "i32", ["bin", "-", FC.ai(1), FC.ai(2)]),
     ("c06_array_size_refuted", "arraysize", "i32", ["m2", "min", FC.ai(2), FC.ai(3)]),
     ("c06_array_size_refuted", "arraysize", "i32", ["bin", "/", FC.ai(4), FC.ai(0)]),
-    ("c06_const_assert_refuted", "assert", "bool", ["bin", "==", ["bin", "+", FC.u32(M32 - 1), FC.u32(1)], FC.u32(0)]),
+    ("c06_const_assert_refuted", "assert", "bool", ["bin", "==", FC.u32(0), ["bin", "+", FC.u32(M32 - 1), FC.u32(1)]]),
     ("c06_workgroup_size_refuted", "wgsize", "u32", FC.u32(8)),
     ("c06_workgroup_size_refuted", "wgsize", "u32", ["bin", "<<", FC.ai(1), FC.ai(3)]),
     ("c06_workgroup_size_refuted", "wgsize", "u32", ["bin", "*", FC.u32(2), FC.u32(4)]),
@@ -588,7 +588,11 @@ WITNESSES = [
 
 
 def run(ctx):
+    import time
+    T = [("start", time.time())]
+    tick = lambda name: T.append((name, time.time()))
     tools = vcheck.build_harness(["nagadrive", "goextract"])
+    tick("harness")
     model_files = ["Fold/GoArith.v", "Fold/FoldModel.v", "Fold/ModEvalModel.v", "Fold/FoldFloat.v", "Fold/WgslConst.v",
                    "Fold/FoldArith.v", "Fold/FoldProofs.v", "Fold/FoldBits.v", "Fold/FoldTree.v", "Fold/FoldAbstract.v",
                    "Fold/FoldErrors.v", "Fold/FoldRefuted.v", "Fold/ModEvalProofs.v", "Fold/FoldGen.v", "Base/Bits32.v"]
@@ -614,34 +618,38 @@ def run(ctx):
         gen_failed = [f for f in failed if "FoldGen" in f]
         broken = ("the switch tables regenerated from lower.go differ from the text the models were written from (Fold/FoldGen.v no longer checks)"
                   if gen_failed else "Coq development no longer checks: %s" % (failed or log[-600:]))
+    tick("coq")
     exe = ocamlbuild.build("fold")
+    tick("extract")
     enums = ir_enums(tools)
     rng = ctx.rng.fork("c06")
     q = not ctx.thorough
-    pools = {"i32": sub(POOL_I, 13 if q else len(POOL_I), rng), "u32": sub(POOL_U, 11 if q else len(POOL_U), rng),
-             "ai": sub(POOL_A, 13 if q else len(POOL_A), rng)}
+    pools = {"i32": sub(POOL_I, 11 if q else len(POOL_I), rng), "u32": sub(POOL_U, 10 if q else len(POOL_U), rng),
+             "ai": sub(POOL_A, 11 if q else len(POOL_A), rng)}
     full = {"i32": POOL_I, "u32": POOL_U, "ai": POOL_A}
+    small = {k: v[:ctx.scale(5, 14)] for k, v in pools.items()}
     cases = []
-    # function scope: the full boundary pool squared at the store position, reduced pools at the others
-    cases += binary_cases("store", ("i32", "u32"), full if ctx.thorough else {"i32": sub(POOL_I, 19, rng), "u32": sub(POOL_U, 15, rng)}, rng, ctx.scale(40, 400))
+    # function scope: the boundary pool squared at the store position, reduced pools at the others
+    cases += binary_cases("store", ("i32", "u32"), full if ctx.thorough else {"i32": sub(POOL_I, 13, rng), "u32": sub(POOL_U, 11, rng)}, rng, ctx.scale(20, 400))
     for pos in ("let", "fnconst", "sub"):
-        cases += binary_cases(pos, ("i32", "u32"), {"i32": pools["i32"][:ctx.scale(7, 14)], "u32": pools["u32"][:ctx.scale(7, 14)]}, rng, ctx.scale(6, 60))
+        cases += binary_cases(pos, ("i32", "u32"), small, rng, ctx.scale(4, 60))
     for pos in ("store", "let") + (("fnconst", "sub") if ctx.thorough else ()):
         cases += unary_cases(pos, pools)
-        cases += math_cases(pos, pools, ctx.scale(6, 9))
-    cases += abstract_cases("store", pools)
-    cases += abstract_cases("let", {k: v[:ctx.scale(8, 21)] for k, v in pools.items()})
+        cases += math_cases(pos, pools, ctx.scale(5, 9))
+    cases += abstract_cases("store", pools if ctx.thorough else {k: v[:7] for k, v in pools.items()})
+    cases += abstract_cases("let", {k: v[:ctx.scale(4, 21)] for k, v in pools.items()})
     for pos in ("store", "let", "fnconst", "sub"):
-        cases += nested_cases(pos, rng, ctx.scale(250, 3000), pools)
-    cases += float_cases("store", rng, ctx.scale(14, 30), ctx.scale(60, 1500))
-    cases += float_cases("let", rng, ctx.scale(6, 14), ctx.scale(10, 200))
+        cases += nested_cases(pos, rng, ctx.scale(100, 3000), pools)
+    cases += float_cases("store", rng, ctx.scale(9, 30), ctx.scale(24, 1500))
+    cases += float_cases("let", rng, ctx.scale(3, 14), ctx.scale(4, 200))
     # module scope
     mp = {"i32": pools["i32"], "u32": pools["u32"], "ai": pools["ai"]}
+    msmall = {k: v[:ctx.scale(6, 20)] for k, v in mp.items()}
     for pos in ("modconst", "modconstT", "switch", "arraysize"):
-        cases += module_cases(pos, rng, mp if pos == "modconst" else {k: v[:ctx.scale(8, 20)] for k, v in mp.items()}, ctx.scale(150, 1500))
-    cases += abstract_module_cases("modabs", rng, mp, ctx.scale(100, 1000))
-    cases += abstract_module_cases("arraysize", rng, {k: v[:ctx.scale(7, 21)] for k, v in mp.items()}, ctx.scale(40, 400))
-    cases += mixed_module_cases("modconst", mp) + mixed_module_cases("modconstT", {k: v[:8] for k, v in mp.items()})
+        cases += module_cases(pos, rng, mp if (pos == "modconst" and ctx.thorough) else msmall, ctx.scale(80, 1500))
+    cases += abstract_module_cases("modabs", rng, msmall, ctx.scale(60, 1000))
+    cases += abstract_module_cases("arraysize", rng, {k: v[:ctx.scale(5, 21)] for k, v in mp.items()}, ctx.scale(30, 400))
+    cases += mixed_module_cases("modconst", msmall) + mixed_module_cases("modconstT", {k: v[:5] for k, v in mp.items()})
     for a in pools["u32"][:8] + pools["i32"][:4]:
         ty = "u32" if a in pools["u32"][:8] else "i32"
         if a >= 0:
@@ -650,18 +658,22 @@ def run(ctx):
     # one program per case: workgroup_size and const_assert
     wg = module_cases("wgsize", rng, {k: v[:5] for k, v in mp.items()}, ctx.scale(20, 200))
     wg += abstract_module_cases("wgsize", rng, {k: v[:6] for k, v in mp.items()}, ctx.scale(20, 200))
+    wg = rng.shuffle(wg)[:ctx.scale(110, 3000)]
     wg += [FC.Case("wgsize", "u32", FC.ai(v)) for v in (1, 8, 64, 256)] + [FC.Case("wgsize", "u32", FC.u32(v)) for v in (1, 8)] + \
-          [FC.Case("wgsize", "u32", FC.i32(8))]
-    cases += rng.shuffle(wg)[:ctx.scale(160, 3000)]
+          [FC.Case("wgsize", "u32", FC.i32(8)), FC.Case("wgsize", "u32", ["bin", "*", FC.ai(4), FC.ai(4)]),
+           FC.Case("wgsize", "u32", ["bin", "-", FC.ai(0), FC.ai(0)])]
+    cases += wg
     asserts = []
     for c in module_cases("assert", rng, {k: v[:4] for k, v in mp.items()}, ctx.scale(30, 300)):
         for rel, v in (("==", 0), ("!=", 0), ("<", 1), (">=", 1)):
-            asserts.append(FC.Case("assert", "bool", ["bin", rel, c.e, FC.typed(c.ty, v)]))
-    cases += rng.shuffle(asserts)[:ctx.scale(200, 4000)]
+            asserts.append(FC.Case("assert", "bool", ["bin", rel, FC.typed(c.ty, v), c.e]))    # `const_assert (e) == v` does not parse: literal first
+    cases += rng.shuffle(asserts)[:ctx.scale(150, 4000)]
     witness_cases = [FC.Case(pos, ty, e, tag="") for _, pos, ty, e in WITNESSES]
     cases += witness_cases
 
+    tick("generate")
     FC.run_cases(tools, exe, cases)
+    tick("run_cases")
 
     # ---- C tie: model == naga on every case
     mism = [c for c in cases if not matches(c)]
@@ -679,13 +691,21 @@ def run(ctx):
     # ---- property: model (== naga) vs WGSL, by class
     classes = collections.Counter()
     examples = {}
+    rtrel = collections.defaultdict(collections.Counter)
     for c in cases:
         if not matches(c):
             continue
         k = FC.spec_class(c)
         if k:
             classes[k] += 1
-            examples.setdefault(k, c)
+            rel = FC.rt_relation(c)
+            if rel:
+                rtrel[k][rel] += 1
+            # prefer an example whose substituted value differs from the run-time value, then the smallest text
+            old = examples.get(k)
+            if old is None or (rel == "differs" and FC.rt_relation(old) != "differs") or \
+                    (FC.rt_relation(old) == rel and len(FC.render_top(c.e)) < len(FC.render_top(old.e))):
+                examples[k] = c
     # f32 + - * and comparisons computed through float64 must be the direct f32 operation (run-time value)
     fcases = [c for c in cases if c.tag.startswith("f32") and c.tag[3:] in ("+", "-", "*") + tuple(CMP) and isinstance(c.model, list)]
     reqs = []
@@ -711,12 +731,16 @@ def run(ctx):
     ndot, dmism, dclasses, dexamples = dot_cases(ctx, tools, exe, rng, ctx.scale(40, 600))
     classes.update(dclasses)
     nrt = runtime_side(ctx, tools, enums)
+    tick("aux")
+    ctx.cov["timing_s"] = {b[0]: round(b[1] - a[1], 1) for a, b in zip(T, T[1:])}
 
     for k in sorted(classes):
         c = examples.get(k)
         if c is not None:
-            what = ("naga violates C06 (class %s, %d generated cases): `%s` at position '%s' -> naga %s; WGSL specifies %s; run-time value %s"
-                    % (k, classes[k], FC.render_top(c.e), c.pos, json.dumps(c.obs), json.dumps(c.spec), json.dumps(c.rt)))
+            rr = rtrel.get(k)
+            what = ("naga violates C06 (class %s, %d generated cases%s): `%s` at position '%s' -> naga %s; WGSL specifies %s; run-time value %s"
+                    % (k, classes[k], (", substituted value differs from the run-time value in %d, equals it in %d" % (rr["differs"], rr["same"])) if rr else "",
+                       FC.render_top(c.e), c.pos, json.dumps(c.obs), json.dumps(c.spec), json.dumps(c.rt)))
             files = {"case.wgsl": c.src or "", "case.json": json.dumps({"pos": c.pos, "ty": c.ty, "e": c.e})}
         elif k in dexamples:
             what = "naga violates C06 (class %s): dot of products that are all -0.0 folds to +0.0, the run-time sum of the products is -0.0" % k
@@ -730,7 +754,7 @@ def run(ctx):
 
     # ---- the witnesses of the refuted theorems must reproduce on naga
     for (thm, pos, ty, e), c in zip(WITNESSES, witness_cases):
-        if matches(c) and FC.spec_class(c) is None and thm != "c06_concretize_refuted":
+        if matches(c) and FC.spec_class(c) is None:
             ctx.violation("the witness of %s no longer shows a disagreement on naga (`%s` at '%s': naga %s, WGSL %s): theorem and implementation drifted apart"
                           % (thm, FC.render_top(e), pos, json.dumps(c.obs), json.dumps(c.spec)), found_input=False,
                           key="witness-stale:" + thm, broken=thm)
